@@ -14,7 +14,7 @@ from ..models.mpt import RefMPT, nibbles_of
 
 ID = "C07"
 LEVEL = "fault_enumeration"
-RUNS = {"quick": 3000, "thorough": 60000}
+RUNS = {"quick": 6000, "thorough": 80000}
 RULE = (
     "each run: seeded prior history (prune on/off, lru-cache knob, optionally ending inside an open squash_changes "
     "block), then sampled calls (get/exists/in/[], set, delete, set-empty, traverse, traverse_from) on that state. "
@@ -74,6 +74,29 @@ def norm_result(status, res):
     if isinstance(res, TraversedPartialPath):
         return ("tpp", norm(res.nibbles_traversed), norm(res.node), norm(res.untraversed_tail), norm(res.simulated_node))
     return ("exc", type(res).__name__)
+
+
+def needed_reads(ref, model, call, key):
+    """Hashes a set/delete of `key` may legitimately need, derived from the canonical
+    trie alone: the hashed nodes on the key's path and, for the delete of a stored key
+    that makes the deepest branch on that path collapse, the one child that remains."""
+    nk = nibbles_of(key)
+    path = ref.path_nodes(nk) if ref.root is not None else []
+    need = {n.hash for n in path if n.hash is not None}
+    if call in ("del", "sete") and key in model:
+        branches = [n for n in path if n.kind == "branch"]
+        if branches:
+            b = branches[-1]
+            depth = len(b.prefix)
+            if len(nk) == depth:
+                rest = [c for c in b.children if c is not None]
+                collapses = len(rest) == 1
+            else:
+                rest = [c for i, c in enumerate(b.children) if c is not None and i != nk[depth]]
+                collapses = len(rest) == 1 and not b.value
+            if collapses and rest[0].hash is not None:
+                need.add(rest[0].hash)
+    return need
 
 
 class World(HWorld):
@@ -231,6 +254,8 @@ class World(HWorld):
             else:
                 if r is None:
                     r = RefMPT(model)
+                if mh not in needed_reads(r, model, call, unhx(cmd["k"])):
+                    self.viol("hash-off-path", f"{call}({cmd['k']}) reports missing node {mh.hex()}, which is neither on the key's path nor the child left behind by a collapsing branch: the operation does not need it")
                 on_key_path = any(n.hash == mh for n in r.path_nodes(nibbles_of(unhx(cmd["k"]))))
                 st.probe("missing-mid-path" if on_key_path else "missing-off-key-path(sibling/merge)")
             after = self._snap(trie, in_batch)
